@@ -20,10 +20,7 @@ class QueryPlan:
             if step != other_step:
                 return False
 
-        # What is it?
-        # if self.result_refs != other.result_refs:
-        #     return False
-        # return True
+        return True
 
     @property
     def last_step_index(self):
